@@ -141,6 +141,9 @@ func runC11(c *Ctx) {
 	// removal and rebuild leave nothing behind in memory either (shared with C14)
 	checkRemovalSteps(c)
 	checkRebuildAndCLIRemoval(c)
+	checkForgetsAfterRemoval(c, "R14.2")
+	// the live snapshot keeps the staging order; so must what Commit stores and a rebuild reads back (shared with C04)
+	checkAuthorSplit(c)
 	checkSingleInstance(c, newLockWorld(w))
 	checkMutatorsNotify(c, "R11.2")
 	checkCreationRegisters(c)
